@@ -113,8 +113,15 @@ deriving Repr, DecidableEq
 
 def P : Params := tlcpParams
 
-/-- the peer is honest and protection transparent: every body opens to itself -/
-def plainDec : Dec Bytes := { len := List.length, raw := id, decrypt := fun _ _ _ b => .ok b }
+/-- record types from this value on mark a wire record that does not authenticate (garbage or
+plaintext injected into the protected stream): `type - forgedMark` is the type byte on the wire -/
+def forgedMark : Nat := 256
+
+/-- the peer is honest and protection transparent: every body opens to itself — except the
+marked forgeries, which `hc.decrypt` refuses with bad_record_mac -/
+def plainDec : Dec Bytes :=
+  { len := List.length, raw := id,
+    decrypt := fun _ typ _ b => if typ ≥ forgedMark then .fail P.aBadMAC .aeadOpen else .ok b }
 
 /-- the error a transport write produces, as `c.out.setErrorLocked` stores it -/
 def wErr (c : Conn) : Option ApiErr :=
